@@ -67,6 +67,9 @@ def run_shard(ctx):
             elif r < 0.6:
                 p = next(cross_iter, None) or rng.choice(cross)
                 batch.append(('cross', p, rng.choice(AMOUNTS[:5])))
+            elif r < 0.64:
+                # the amount comes from a name (no number is written on the line of the quantity)
+                batch.append(('conv-amount-from-variable', rng.choice(same), rng.choice(['1', '2.5', '1000', '3', '48'])))
             elif r < 0.72:
                 batch.append(('roundtrip', rng.choice(same), rng.choice(['1', '2.5', '1000', '12345.678', '3'])))
             elif r < 0.8:
@@ -86,6 +89,9 @@ def run_shard(ctx):
                 if cls in ('conv', 'cross'):
                     a, b = p
                     text = '%s %s %s %s' % (lit(amt), rng.choice(units[a]['spellings']), conn, rng.choice(units[b]['names']))
+                elif cls == 'conv-amount-from-variable':
+                    a, b = p
+                    text = 'wv = %s\nwv %s %s %s' % (lit(amt), rng.choice(units[a]['spellings']), conn, rng.choice(units[b]['names']))
                 elif cls == 'roundtrip':
                     a, b = p
                     text = 'zq = %s %s to %s\nzq to %s' % (lit(amt), rng.choice(units[a]['spellings']), units[b]['names'][0], units[a]['names'][0])
@@ -119,7 +125,7 @@ def run_shard(ctx):
                 res.count('class:' + cls)
                 res.distinct.add(sep, text)
                 verdicts[sep] = judge(units, cls, p, amt, slot)
-            if cls == 'conv':
+            if cls in ('conv', 'conv-amount-from-variable'):
                 res.cover('ordered in-kind unit pair converted', '%s>%s' % (p[0], p[1]), len(same))
             elif cls == 'cross':
                 res.cover('ordered cross-kind unit pair tried', '%s>%s' % (p[0], p[1]), len(cross))
@@ -176,7 +182,7 @@ def judge(units, cls, p, amt, slot):
             return 'ratio %r, expected %r' % (mon.fval(slot), float(want))
         return None
     a, b = p[0], p[1]
-    if cls == 'conv':
+    if cls in ('conv', 'conv-amount-from-variable'):
         want = Fraction(amt) * units[a]['size'] / units[b]['size']
         tgt = b
     elif cls == 'roundtrip':
